@@ -15,7 +15,7 @@ EXAMPLES = {"quick": 260, "thorough": 5000}
 EXHAUSTIVE = {"quick": False, "thorough": False}
 RULE = ("cases = scope-nesting shapes: a chain of scopes module > {function, class, lambda, comprehension}* (depth<=4); "
         "for one identifier out of {value, len} every scope draws a binding pattern before and after its child "
-        "(assignment, parameter default, import-as, for/with target, walrus, class attribute, global/nonlocal "
+        "(assignment, assignment followed by del, parameter default, import-as, for/with/except target, walrus, class attribute, global/nonlocal "
         "declaration with or without assignment) and up to three recorded uses (begin/middle/end); shapes CPython "
         "rejects are dropped by compile(). Every binding stores a sentinel naming its site; the program is executed and "
         "each *executed* use reports the sentinel it read. Oracle: symtable says which variable (owning scope) the use "
@@ -31,6 +31,7 @@ PRELUDE = [
     "import sentinels_mod",
     "RECORDED = []",
     "def REC(use_id, got):",
+    "    if isinstance(got, BaseException) and got.args: got = got.args[0]",
     "    RECORDED.append((use_id, got if isinstance(got, str) else ('<builtin>' if got is len else repr(type(got)))))",
     "    return got",
     "class CM:",
@@ -39,7 +40,7 @@ PRELUDE = [
     "    def __exit__(self, *exc): return False",
 ]
 STMT_PATTERNS = ["none", "none", "assign", "assign", "import", "for", "with", "walrus", "global", "global_assign", "nonlocal",
-                 "nonlocal_assign"]
+                 "nonlocal_assign", "except", "del_after_assign"]
 EXPR_PATTERNS = ["none", "walrus"]
 
 
@@ -51,6 +52,7 @@ class Src:
         self.uses = []       # {uid, line, col, scope}
         self.decls = []      # {line, col, scope, kind}
         self.scopes = [{"kind": "module", "line": 0, "parent": None}]
+        self.unbinds = []    # {line, scope, kind}: places where the identifier becomes unbound again (del, end of an except clause)
         self.n = 0
 
     def add(self, text):
@@ -95,7 +97,8 @@ def emit_binding(src, pat, scope, pad):
             ln = src.add('%s%s += "+S%d"' % (pad, x, sid2))
             src.site(ln, len(pad), scope)
         if pat == "del_after_assign":
-            src.add("%sdel %s" % (pad, x))
+            ln = src.add("%sdel %s" % (pad, x))
+            src.unbinds.append({"line": ln, "scope": scope, "kind": "del"})
     elif pat == "global":
         ln = src.add("%sglobal %s" % (pad, x))
         src.decls.append({"line": ln, "col": len(pad) + 7, "scope": scope, "kind": "global"})
@@ -122,6 +125,19 @@ def emit_binding(src, pat, scope, pad):
         sid = sid_holder()
         ln = src.add('%s(%s := "S%d")' % (pad, x, sid))
         src.site(ln, len(pad) + 1, scope)
+    elif pat == "except":
+        # the target is bound for the body of the clause only (Python deletes it at the end): one use inside the body
+        sid = sid_holder()
+        src.add("%stry:" % pad)
+        src.add('%s    raise KeyError("S%d")' % (pad, sid))
+        text = "%sexcept KeyError as %s:" % (pad, x)
+        ln = src.add(text)
+        src.site(ln, text.rindex(" " + x) + 1, scope)
+        src.sites[-1]["except_target"] = True
+        first_use = len(src.uses)
+        emit_use(src, scope, pad + "    ")
+        src.uses[first_use]["in_except_body"] = True
+        src.unbinds.append({"line": len(src.lines), "scope": scope, "kind": "except-end"})
 
 
 def emit_use(src, scope, pad):
@@ -514,6 +530,35 @@ def run_case(ctx, shape):
                         out.add("non-enclosing-" + src.scopes[sc]["kind"])
                 return "+".join(sorted(out))
 
+            # the identifier was unbound again (del / end of an except clause) in the use's own scope before the use, and
+            # Python went on to the next scope (class body -> globals -> builtins)
+            unbound_before = any(ub["scope"] == u["scope"] and ub["line"] < u["line"] for ub in src.unbinds) \
+                and not u.get("in_except_body") and (builtin_read or src.sites[read_sid]["scope"] != u["scope"])
+            # ... or is unbound again further down in the (enclosing) scope the value was taken from
+            owner = None if builtin_read else src.sites[read_sid]["scope"]
+            unbound_later_in_owner = owner is not None and (owner != u["scope"] or u.get("in_default")) and \
+                any(ub["scope"] == owner and ub["line"] > u["line"] for ub in src.unbinds)
+            if unbound_before:
+                ctx.cls("use-after-unbinding-in-own-scope")
+                own = {(s_["line"], s_["col"]) for s_ in src.sites if s_["scope"] == u["scope"]}
+                if not res or all(g in own for g in got_pos):
+                    # pinned root cause: jedi does not model the fall-through to the next scope (it reports nothing, or the
+                    # binding that is gone); anything else reported here is judged as usual below
+                    devs.append(("falls-through-after-unbinding-not-modelled:use-in-%s" % use_kind, where))
+                    continue
+            # ... or in a scope between the use and the scope the value came from (a class body's name that Python takes
+            # from the module while jedi asks the enclosing function, where the name was deleted)
+            anc_, a_ = [], src.scopes[u["scope"]]["parent"]
+            while a_ is not None and a_ != owner:
+                anc_.append(a_)
+                a_ = src.scopes[a_]["parent"]
+            unbound_between = any(ub["scope"] in anc_ for ub in src.unbinds)
+            if unbound_later_in_owner or unbound_between:
+                ctx.cls("use-in-nested-scope-of-a-scope-that-unbinds-the-name")
+                if not res:
+                    devs.append(("goto-empty:enclosing-scope-unbinds-the-name:use-in-%s%s" % (
+                        use_kind, ":in-%s-default" % u["in_default"] if u.get("in_default") else ""), where))
+                    continue
             if builtin_read:
                 ctx.cls("builtin-read")
                 # Python consulted (local ->) module -> builtins; module-level bindings that are merely not bound *yet*
@@ -537,7 +582,10 @@ def run_case(ctx, shape):
             s_read = src.sites[read_sid]
             all_in_use_scope = all(s_["scope"] == u["scope"] for s_ in src.sites if site_var[s_["sid"]] == v_use.get_id()) \
                 and all(d["scope"] == u["scope"] for d, dv in decl_var if dv == v_use.get_id())
-            if all_in_use_scope and src.scopes[u["scope"]]["kind"] in ("module", "function", "class"):
+            # an except clause is a branch, not straight-line code: neither uses inside its body nor scopes one of whose
+            # bindings is an except target are held to the exactness clause
+            branchy = u.get("in_except_body") or any(s_.get("except_target") for s_ in src.sites if s_["scope"] == u["scope"])
+            if all_in_use_scope and not branchy and src.scopes[u["scope"]]["kind"] in ("module", "function", "class"):
                 ctx.cls("straight-line")
                 exact = {(s_read["line"], s_read["col"])}
                 if set(got_pos) != exact:
